@@ -177,6 +177,10 @@ def run(ctx):
             ("typed-str", [({"a": 0, "k": "a"}, [({"a": 1, "k": "b"}, [])]), ({"a": 2, "k": "a"}, [({"a": 1, "k": "a"}, []), ({"a": 0, "k": "b"}, [])])]),
             ("typed-str", [({"a": 0, "k": "a", "did": 5}, []), ({"a": 1, "k": "b"}, [({"a": 0, "k": "a", "did": 5}, [])])]),
             ("plain-obj", [(18, [(12, []), (15, [])]), (24, [(18, []), (0, [])])]),
+            # one data object under three and four kinds (x, y, z / x, y, y, z, x): every occurrence keeps ITS kind
+            ("typed-str", [({"a": 0, "k": "x"}, [({"a": 1, "k": "x"}, [])]), ({"a": 2, "k": "x"}, [({"a": 0, "k": "y"}, [])]), ({"a": 3, "k": "x"}, [({"a": 0, "k": "z"}, [])])]),
+            ("typed-obj", [({"a": 18, "k": "x"}, []), ({"a": 0, "k": "x"}, [({"a": 18, "k": "y"}, []), ({"a": 1, "k": "x"}, [({"a": 18, "k": "y"}, [])])]),
+                           ({"a": 2, "k": "w"}, [({"a": 18, "k": "z"}, [({"a": 18, "k": "x"}, [])])])]),
         ]
         cases = []
         for cfg, spec in corpus:
